@@ -54,8 +54,9 @@ std::optional<sqf::runtime::fileio::pathinfo> sqf::fileio::impl_default::get_inf
         return {};
     }
 
-    // Prepare local tree-node list
+    // Prepare local tree-node list (and the names the nodes were reached by)
     std::vector<std::shared_ptr<path_element>> nodes;
+    std::vector<std::string> node_names;
     nodes.push_back(m_virtual_file_root);
 
 #if WIN32
@@ -80,6 +81,7 @@ std::optional<sqf::runtime::fileio::pathinfo> sqf::fileio::impl_default::get_inf
                 if (nodes.back()->next.find(*it) != nodes.back()->next.end())
                 {
                     nodes.push_back(nodes.back()->next.at(*it));
+                    node_names.push_back(*it);
                     log(logmessage::fileio::ResolveVirtualNavigateDown(current.physical, virt, *it));
                 }
                 else
@@ -127,6 +129,7 @@ std::optional<sqf::runtime::fileio::pathinfo> sqf::fileio::impl_default::get_inf
             {
                 // Move dir-up
                 nodes.pop_back();
+                if (!node_names.empty()) { node_names.pop_back(); }
                 log(logmessage::fileio::ResolveVirtualNavigateUp(current.physical, virt));
             }
             else
@@ -144,6 +147,7 @@ std::optional<sqf::runtime::fileio::pathinfo> sqf::fileio::impl_default::get_inf
                 else
                 {
                     nodes.push_back(nodes.back()->next.at(*it));
+                    node_names.push_back(*it);
                     log(logmessage::fileio::ResolveVirtualNavigateDown(current.physical, virt, *it));
                 }
             }
@@ -159,6 +163,14 @@ std::optional<sqf::runtime::fileio::pathinfo> sqf::fileio::impl_default::get_inf
 
         // Set virtual to remaining and ensure no further dir-up occur
         virt.clear();
+        // Nodes which exist for the sake of a deeper mapping only have no physical path:
+        // the mapped prefix of the request is the deepest node that got one.
+        while (nodes.back()->physical.empty() && !node_names.empty() && node_names.back() != ".."s)
+        {
+            virt.insert(0, "/" + node_names.back());
+            node_names.pop_back();
+            nodes.pop_back();
+        }
         for (; it != std::istream_iterator<StringDelimiter<'/'>>{}; ++it)
         {
             if (*it == ".."s) { /* skip dir-up */ continue; }
